@@ -1559,7 +1559,9 @@ class XMLOutputFormattingWrapper:
         reportsDir.mkdir(exist_ok=True)
 
         for name, suite in self._testSuites.items():
-            filename = reportsDir / f'{name}.xml'
+            # a suite name may contain what a file name cannot
+            filename = reportsDir / (
+                re.sub(r'[/\\\0]', '_', name) + '.xml')
 
             testSuiteNode = ElementTree.Element('testsuite')
 
